@@ -265,8 +265,6 @@ def _rand_link(rng, key, up, down, long_links=True):
             segs = list(range(N))
         else:
             segs = [i for i in range(N) if rng.random() < 0.5]
-        if N == 1 and not segs:  # known defect F9 (CasADi, empty set on a single segment): only in C07's own case
-            segs = [0]
         kw.update(vsl=segs, alpha=float(rng.choice([0.0, 0.1, -0.1, 0.05])))
     return mk_link(key, up, down, **kw)
 
@@ -363,13 +361,6 @@ def random_topology(rng, max_interior=4, long_links=True):
             has_o[n] = o
     links = [_rand_link(rng, fresh("L"), u, v, long_links) for (u, v) in E]
     return mk_recipe(links, origins, dests, nodes=nodes)
-
-
-def known_defect_recipes():
-    """configurations kept out of the generic generators because they hit a genuine defect of the
-    unchanged tree (reported once, by C07)"""
-    return [mk_recipe([mk_link("L0", "a", "b", N=1, lam=2, vsl=[], alpha=0.1)], [mk_origin("O0", "a", "main")],
-                      [mk_dest("D0", "b", "free")], tag="vsl-empty-N1")]
 
 
 def random_script(rng, recipe, incremental=False):
@@ -503,6 +494,9 @@ def corner_networks():
     add("vsl", [L("L0", "a", "b", N=3, lam=2, vsl=[], alpha=0.1), L("L1", "b", "c", N=3, lam=2, vsl=[0], alpha=0.0),
                 L("L2", "c", "d", N=3, lam=2, vsl=[2], alpha=-0.1), L("L3", "d", "e", N=2, lam=2, vsl=[0, 1], alpha=0.1)],
         [O("O0", "a", "main")], [D("D0", "e", "free")])
+    # single-segment speed-limited links: empty set and the only segment (F9 regression)
+    add("vsl-N1", [L("L0", "a", "b", N=1, lam=2, vsl=[], alpha=0.1), L("L1", "b", "c", N=1, lam=2, vsl=[0], alpha=0.0)],
+        [O("O0", "a", "main")], [D("D0", "c", "free")])
     # a long link (more than 10 segments) behind a metered ramp
     add("long", [L("L1", "a", "b", N=12, lam=3, L=0.5)], [O("O1", "a", "ramp", 3500.0, "out")], [D("D1", "b", "free")])
     # distinct elements sharing names
